@@ -10,7 +10,7 @@ Driver ops of the header layer (C05, C12).
   hdr.re v1|v2|xml search|match <str>                 -> (ok none) | (ok (some (<opt str>…) <end>))
   hdr.decode <codecname> <bytes>                      -> (ok <str>) | (err unicode)
   hdr.encode <codecname> <str>                        -> (ok <bytes>) | (err unicode)
-  spec.renderfile <filespec> <bodybytes>              -> (ok <bytes> <tolerated> <guard>)
+  spec.renderfile <filespec> <bodybytes>              -> (ok <bytes> <tolerated>)
 
   <arg>  = none | (int n) | (str x…)
   <hdr>  = (v1 oh data ver sec enc cs comp old new) | (v2 ver oh sec old new)
@@ -177,7 +177,7 @@ def handle : Handler := fun op args =>
   | "spec.renderfile", [fs, body] => do
       let fs ← decFileSpec fs
       let body ← decBytes body
-      pure (replyOk [encBytes (renderFile fs body), encBool (tolerated fs), encBool (guard fs body)])
+      pure (replyOk [encBytes (renderFile fs body), encBool (tolerated fs)])
   | _, _ => none
 
 end Ofx.Drv.Header
